@@ -11,15 +11,16 @@ CLAUSES = {1: "a script was due (template usable, callback address determinable)
            10: "model/implementation differ on the error status"}
 H = lambda s: (s if isinstance(s, bytes) else s.encode()).hex()
 DEFAULT = open(os.path.join(vlib.REPO, "internal/hsrv/script.tmpl"), "rb").read()
-TMPLS = {"default": DEFAULT, "unparsable": b"{{ if }", "execfails": b"#!/bin/sh\n{{.PubkeyFP}} {{.Nope}}\n", "literal": b"echo literal-template\n"}
-TCOQ = {"none": "TDefault", "default": "TDefault", "unparsable": "TUnparsable", "execfails": "TExecFails", "missing": "TMissing"}
+TMPLS = {"default": DEFAULT, "unparsable": b"{{ if }", "execfails": b"#!/bin/sh\n{{.PubkeyFP}} {{.Nope}}\n", "literal": b"echo literal-template\n",
+         "literal2": b"echo LITERAL-TEMPLATE\n", "unparsable2": b"{{ if }" + b"x" * 14 + b"\n"}
+TCOQ = {"none": "TDefault", "default": "TDefault", "unparsable": "TUnparsable", "unparsable2": "TUnparsable", "execfails": "TExecFails", "missing": "TMissing"}
 HOSTS = ["h.example", "h.example:8443", "bücher.example", "[::1]:8443", "", "UPPER.Example", "xn--bcher-kva.example", "a" * 70 + ".example", "h․example"]
 C2S = ["", "cb.example:4444", "10.0.0.1", "%s%d", "a b", "[::1]:1"]
 SNIS = ["", "sni.example", "::1"]
 
 
 def tmpl_term(kind):
-    return "(TLiteral %s)" % vlib.coq_str(TMPLS["literal"]) if kind == "literal" else TCOQ[kind]
+    return "(TLiteral %s)" % vlib.coq_str(TMPLS[kind]) if kind.startswith("literal") else TCOQ[kind]
 
 
 def mk_req(rng):
@@ -68,6 +69,18 @@ def make_cases(rng, tier):
                 acts.append({"a": "tmpl", "c": H(TMPLS[st])} if st != "missing" else {"a": "tmpl"}); meta.append({"edit": st}); state = st
             for _ in range(2):
                 a, m = mk_req(rng); m["tmpl"] = state; acts.append(a); meta.append(m)
+        cases.append({"cfg": {"tmpl": H(DEFAULT)}, "acts": acts, "_meta": meta})
+    # edits which change neither the size nor the modification time of the file (all three texts are 22 bytes)
+    assert len({len(TMPLS[x]) for x in ("literal", "literal2", "unparsable2")}) == 1
+    for rep in range(1 if tier == "quick" else 10):
+        acts, meta = [], []
+        seq = ["literal", "literal2", "unparsable2", "literal", "literal2"]
+        if rep:
+            rng.shuffle(seq)
+        for st in seq:
+            acts.append({"a": "tmpl", "c": H(TMPLS[st]), "keep_mtime": True}); meta.append({"edit": st})
+            for _ in range(2):
+                a, m = mk_req(rng); m["tmpl"] = st; acts.append(a); meta.append(m)
         cases.append({"cfg": {"tmpl": H(DEFAULT)}, "acts": acts, "_meta": meta})
     # listening on 443: the SNI is used without a port
     acts, meta = [], []
@@ -154,7 +167,7 @@ def check(run):
     run.stream("requests", len(allterms), sum(1 for t in tgs if t not in (None,)),
                "all 24 presence combinations of c2 parameter / c2 header / Host / SNI, random requests with IDN, upper-case, over-long, ported, IPv6 and empty "
                "Hosts, c2 in the query and in a POST form, HTTP/1.0 over real TLS with and without SNI, listen port 443 when bindable; a template file "
-               "edited, broken, removed and re-created between requests (every state twice); non-trivial = every request (tag = address source / template state)",
+               "edited, broken, removed and re-created between requests (every state twice), including edits that keep the file's size and modification time; non-trivial = every request (tag = address source / template state)",
                [allinputs[0], allinputs[-1]], {"address_source_tags": dist})
     run.assumptions += ["text/template (engine), idna.ToASCII (verdict taken from the real library per request), curl and /bin/sh are environment",
                         "distinctness of IDs rests on math/rand; observed per run, injectivity of the base-36 rendering is proved"]
